@@ -68,11 +68,12 @@ theorem rayleigh_le_of_eigs (A : Matrix (Fin n) (Fin n) ℝ) (hsym : ∀ i j, A 
 
 /-! ## eigenvector centrality -/
 
-/-- contract of `vals, vecs = linalg.eig(A)` for a real matrix with real spectrum: column `k` is a unit
-eigenvector for `vals k`, and `vals` lists every eigenvalue -/
-structure EigOracle (A : Matrix (Fin n) (Fin n) ℝ) (vals : Fin n → ℝ) (vecs : Matrix (Fin n) (Fin n) ℝ) : Prop where
-  eigen : ∀ k, A *ᵥ (fun r => vecs r k) = vals k • fun r => vecs r k
-  unit : ∀ k, ∑ r, vecs r k * vecs r k = 1
+/-- contract of `vals, vecs = linalg.eig(A)` as far as the routine uses it (`i` is the column it selects): column `i` is a real
+unit eigenvector for `vals i`, and `vals` lists every (real) eigenvalue of `A`.  Nothing is assumed about the other columns
+(for a repeated non-maximal eigenvalue LAPACK may return a complex-conjugate pair of columns). -/
+structure EigOracle (A : Matrix (Fin n) (Fin n) ℝ) (vals : Fin n → ℝ) (vecs : Matrix (Fin n) (Fin n) ℝ) (i : Fin n) : Prop where
+  eigen : A *ᵥ (fun r => vecs r i) = vals i • fun r => vecs r i
+  unit : ∑ r, vecs r i * vecs r i = 1
   complete : ∀ (μ : ℝ) (x : Fin n → ℝ), x ≠ 0 → A *ᵥ x = μ • x → ∃ k, vals k = μ
 
 /-- `i = np.argmax(vals)`: an index of a maximal entry (that numpy returns the first one is irrelevant here) -/
@@ -86,8 +87,7 @@ def eigCentrality {K : Type} [Lattice K] [AddGroup K] (vecs : Matrix (Fin n) (Fi
 non-negative entries the returned vector is non-negative, has unit 2-norm and satisfies `A v = λ_max v`, where
 `λ_max = vals i` is an eigenvalue that no eigenvalue of `A` exceeds.  No connectivity / simplicity assumption. -/
 theorem eigenvector_spec (A : Matrix (Fin n) (Fin n) ℝ) (hsym : ∀ i j, A i j = A j i) (hpos : ∀ i j, 0 ≤ A i j)
-    (vals : Fin n → ℝ) (vecs : Matrix (Fin n) (Fin n) ℝ) (ho : EigOracle A vals vecs)
-    (i : Fin n) (hi : IsArgmax vals i) :
+    (vals : Fin n → ℝ) (vecs : Matrix (Fin n) (Fin n) ℝ) (i : Fin n) (ho : EigOracle A vals vecs i) (hi : IsArgmax vals i) :
     (∀ r, 0 ≤ eigCentrality vecs i r) ∧
     (∑ r, eigCentrality vecs i r * eigCentrality vecs i r = 1) ∧
     (A *ᵥ eigCentrality vecs i = vals i • eigCentrality vecs i) ∧
@@ -99,11 +99,11 @@ theorem eigenvector_spec (A : Matrix (Fin n) (Fin n) ℝ) (hsym : ∀ i j, A i j
   have hray := rayleigh_le_of_eigs A hsym (vals i) hmaxeig
   have hv : ∀ r, ∑ j, A r j * vecs j i = vals i * vecs r i := by
     intro r
-    have := congrFun (ho.eigen i) r
+    have := congrFun ho.eigen r
     simpa [mulVec, dotProduct] using this
   have habs := abs_eigvec_of_max A hsym hpos (vals i) hray (fun r => vecs r i) hv
   refine ⟨fun r => abs_nonneg _, ?_, ?_, hmaxeig⟩
-  · simp only [eigCentrality, abs_mul_abs_self]; exact ho.unit i
+  · simp only [eigCentrality, abs_mul_abs_self]; exact ho.unit
   · ext r
     simpa [mulVec, dotProduct, eigCentrality] using habs r
 
